@@ -398,3 +398,11 @@ def replay(spec):
         scale = max(1.0, np.abs(Mphi @ phi).max())
         return {'violated': bool(min(errs) > 1e-3 * scale), 'detail': '_phi_to_delta_rph deviates from the finite-difference derivative by %.3g (scale %.3g)' % (min(errs), scale)}
     return {'violated': False, 'error': 'unknown check %r' % chk}
+
+
+RIM = {'lat': -84.6, 'lon': 150.0, 'alt': 15000.0, 'VN': 250.0, 'VE': -200.0, 'VD': 5.0, 'roll': 120.0, 'pitch': -60.0, 'heading': -170.0}
+
+
+def FALLBACK(tier):
+    """numeric oracle specs put to the compiled code when the symbolic run is inconclusive (main.py)"""
+    return [{'check': c, 'point': p} for c in ('roundtrip', 'rotvec', 'phi_delta') for p in ({}, RIM)]
